@@ -27,6 +27,12 @@ def main():
     g = graph.Graph(payloads)
     with open(job['events']) as fh:
         expected = json.load(fh)['payloads']
+    rexpected = {}
+    if job.get('revents'):
+        # CmpRange!DumpEvR: expected comparison events of the range calls, per shape
+        with open(job['revents']) as fh:
+            for ent in json.load(fh)['payloads']:
+                rexpected[graph.key(ent['tree'])] = ent
     K = keys.K
     mism, counts = [], dict(calls=0, comparisons=0, sweeps=0)
 
@@ -169,6 +175,20 @@ def main():
                 res, log, left, pj = run(path_acts, 'query', 0)
                 counts['calls'] += 1
                 where = dict(impl=impl, is_set=is_set, sizes=[job['leaf'], job['internal']], tree=tree, op='%s%s' % (q[0], list(q[1:])), k=0)
+                rent = rexpected.get(graph.key(tree))
+                if rent is not None:
+                    # the comparison sequence and the pinned set at every comparison, as CmpRange.tla predicts them
+                    evs = rent['range'][1 if q[3] else 0][q[1]][q[2]] if q[0] == 'keys' else rent['bound'][q[1] - 1]
+                    want = []
+                    for e in evs:
+                        pinned = sorted(e['pinned'])
+                        want.append(['lt', e['lhs'], e['rhs'], pinned])
+                        if not e['lhs'] < e['rhs']:
+                            want.append(['eq', e['lhs'], e['rhs'], pinned])
+                    counts['range_calls_predicted'] = counts.get('range_calls_predicted', 0) + 1
+                    counts['comparisons'] += len(log)
+                    if log != want:
+                        mism.append(dict(where, kind='comparison-events', model=want, real=log))
                 if left:
                     mism.append(dict(where, kind='pinned-after-return', real=left))
                 for j in range(len(log)):
